@@ -30,7 +30,7 @@ ASSUMPTIONS = [
     "link faults are enabled only after bring-up; if the link fails the stack stops and every later call raises (C10's subject)",
     "command payload schemas inside the NCP model are bellows' own tables",
 ]
-PROBES = ["behaviour.sendfail", "behaviour.reply", "behaviour.late", "behaviour.never", "behaviour.dup", "behaviour.wrongseq", "behaviour.cb_before", "behaviour.cb_after",
+PROBES = ["behaviour.sendfail", "behaviour.invdup", "duplicate_invalid_command", "behaviour.reply", "behaviour.late", "behaviour.never", "behaviour.dup", "behaviour.wrongseq", "behaviour.cb_before", "behaviour.cb_after",
           "call_ok", "call_timeout", "call_cancelled", "call_other_exc", "priority_overtake", "queued_behind_inflight", "seq_wrapped",
           "late_reply_swallowed", "dup_delivered_as_callback", "cancel_while_queued", "cancel_while_sending", "cancel_while_awaiting",
           "link_failed", "sched.batch", "sched.reorder", "twin.call_reply", "twin.call_cb", "twin.call_never", "twin.reconnected"]
@@ -43,7 +43,7 @@ CMDS = {
     "setSourceRoute": -1, "sendUnicast": -1, "setExtendedTimeout": -1, "sendMulticast": -1, "sendBroadcast": -1,
 }
 NAMES = list(CMDS)
-BEH = ["reply"] * 6 + ["late", "never", "dup", "wrongseq", "cb_before", "cb_after"]
+BEH = ["reply"] * 6 + ["late", "never", "dup", "wrongseq", "cb_before", "cb_after", "invdup"]
 LATE = (10.0, 10.0, 10.5, 14.0)
 
 
@@ -397,6 +397,21 @@ def run(scenario, params, tape, detail=False):
                     wrong_emitted.append((req.name, expected.get(req.idx)))
                     loop.external(loop.time() + 0.001, lambda s2=s2: reply(seq=s2, check=True, kind="wrong"), group="ncp-app")
                     break
+        elif b == "invdup":
+            # the NCP rejects this command (invalidCommand under its sequence) - and says so twice: the second copy answers nothing any more,
+            # whatever is in flight by then
+            inv = Z.header(ncp.V, req.seq, Z.ID_INVALID_COMMAND) + ncp.invalid_body(0x31)
+            req.nrsp += 1
+            normal_seq[0] = req.seq
+            ncp.emit(inv, 0.0, "rsp")
+
+            def again():
+                if any(c["seq"] == req.seq and c["started"] and not c["ended"] for c in calls) or stale_seq(req.seq):
+                    return
+                probe("duplicate_invalid_command")
+                ncp.emit(inv, 0.0, "rsp")
+
+            loop.external(loop.time() + (0.002, 0.03, 0.5)[tape.draw(3, "invd")], again, group="ncp-app")
         elif b == "cb_before":
             emit_cb()
             loop.external(loop.time() + 0.001, reply, group="ncp-app")
@@ -635,7 +650,10 @@ def run(scenario, params, tape, detail=False):
                         viol.append(("C06.own", "reply-ignored", f"call {c['id']} ({c['name']}, seq {c['seq']}) timed out although the NCP replied promptly under its sequence"))
             else:
                 probe("call_other_exc")
-                if c.get("sendfail"):
+                ri_ = c.get("req_idx")
+                if ri_ is not None and req_beh.get(ri_) == "invdup" and res[1] == "InvalidCommandError":
+                    probe("call_rejected_by_ncp")
+                elif c.get("sendfail"):
                     if res[1] != "NcpFailure":
                         viol.append(("C06.own", "send-failure-not-relayed", f"call {c['id']} ({c['name']}): its send failed at the link layer, the caller saw {res[2]!r}"))
                 elif not faults and not link_failed and res[1] not in ("EzspError",):
